@@ -1498,6 +1498,9 @@ func runC14(c *runCtx) error {
 			c14ClassifyM(e, m.s, "mutant", m.fault, bq)
 		}
 	}
+	// ---------------------------------------------------------------- aggregated SELECT texts vs
+	// Model/AggInit.parse_check_agg (harness/c14agg.go, Corr/C14Agg.v)
+	runC14Agg(e, c, r)
 	e.m.Exhaustive = full // the grid part; the typed / mutant part is seeded random
 	return e.flush()
 }
